@@ -1,0 +1,47 @@
+//go:build verif
+
+package main
+
+// Contracts for the deductive checker in /verif (comment-only file).
+// C13: decision of missing-approve against the ghost observation record
+// declared in pkg/status.
+
+// What readFile yields for path p: plain file, else valid bzip2 copy, else nothing.
+//vc:spec func stored(ex set[string], dk map[string]string, p string) string =
+//vc:   ite(p in ex, dk[p], ite((p + ".bz2") in ex && bzValid(dk[p + ".bz2"]), unbz(dk[p + ".bz2"]), ""))
+//vc:spec func plain(ex set[string], dk map[string]string, p string) string = ite(p in ex, dk[p], "")
+//vc:spec func fileEq(ex set[string], dk map[string]string, pols string, op string, cur string, dir string, name string) bool =
+//vc:   stored(ex, dk, pathJoin(pols, op, dir, name)) == plain(ex, dk, pathJoin(pols, cur, dir, name))
+//vc:spec func dirEq(ex set[string], dk map[string]string, pols string, op string, cur string, dir string, dev string) bool =
+//vc:   fileEq(ex, dk, pols, op, cur, dir, dev + "") && fileEq(ex, dk, pols, op, cur, dir, dev + ".raw")
+// The code of device dev under the observed policy op equals its code under cur:
+// code, code/ipv6, code/ipv4, each with and without .raw.
+//vc:spec func codeEq(ex set[string], dk map[string]string, pols string, op string, cur string, dev string) bool =
+//vc:   dirEq(ex, dk, pols, op, cur, "code", dev) && dirEq(ex, dk, pols, op, cur, "code/ipv6", dev) && dirEq(ex, dk, pols, op, cur, "code/ipv4", dev)
+// Latest conclusive observation establishes "device carries the current code".
+//vc:spec func establishes(hOK bool, tO int64, pO string, hC bool, tC int64, pC string, ch bool, same bool, sameC bool) bool =
+//vc:   ite(hOK && (!hC || tC < tO), same, ite(hC, !ch && sameC, false))
+
+//vc:func readFile
+//vc:  nopanic
+//vc:  ensures[C13] @plainOrBzip2 bytes(result) == stored(onDisk, disk, p)
+
+//vc:func check
+//vc:  requires policy != ""
+//vc:  requires InvApprove(statusFile[device], hasOK[device], tOK[device], pOK[device])
+//vc:  requires InvCompare(statusFile[device], hasOK[device], tOK[device], hasCmp[device], tCmp[device], pCmp[device], chg[device])
+//vc:  requires InvTimes(statusFile[device], hasOK[device], tOK[device], hasCmp[device], tCmp[device], now)
+//vc:  requires hasOK[device] ==> pOK[device] != ""
+//vc:  requires hasCmp[device] ==> pCmp[device] != ""
+//vc:  let est = establishes(hasOK[device], tOK[device], pOK[device], hasCmp[device], tCmp[device], pCmp[device], chg[device],
+//vc:        pOK[device] == policy || codeEq(onDisk, disk, policies, pOK[device], policy, device),
+//vc:        pCmp[device] == policy || codeEq(onDisk, disk, policies, pCmp[device], policy, device))
+//vc:  invariant[C13] 1 "for _, dir := range" @dirsCompared printedLines == old(printedLines) && -1 <= rangeindex && rangeindex < 3 &&
+//vc:        (rangeindex >= 0 ==> dirEq(onDisk, disk, policies, devicePolicy, policy, "code", device)) &&
+//vc:        (rangeindex >= 1 ==> dirEq(onDisk, disk, policies, devicePolicy, policy, "code/ipv6", device)) &&
+//vc:        (rangeindex >= 2 ==> dirEq(onDisk, disk, policies, devicePolicy, policy, "code/ipv4", device))
+//vc:  invariant[C13] 2 "for _, ext := range" @filesCompared printedLines == old(printedLines) && -1 <= rangeindex && rangeindex < 2 &&
+//vc:        (rangeindex >= 0 ==> fileEq(onDisk, disk, policies, devicePolicy, policy, dir, device + "")) &&
+//vc:        (rangeindex >= 1 ==> fileEq(onDisk, disk, policies, devicePolicy, policy, dir, device + ".raw"))
+//vc:  ensures[C13] @listedUnlessEstablished !est ==> printedLines == old(printedLines) + 1
+//vc:  ensures[C13] @omittedIfEstablished est ==> printedLines == old(printedLines)
